@@ -165,6 +165,10 @@ def judge(sp, cfg, res, want=None):
         msg = res.status[len("status panic "):]
         prop = "C16" if "total order" in msg or "Ord" in msg else "C20"
         add(prop, "runner_panicked", "the runner panicked: %s" % msg[:200])
+        for other in sorted(want or ()):
+            # no clause of a registry-level property is observable in a run that dies of a panic nothing in the registry raised
+            if other != prop and other in ("C03", "C04", "C05", "C13", "C14", "C15", "C17", "C18"):
+                add(other, "runner_panicked", "the runner panicked instead of running the selected benchmarks with their options: %s" % msg[:200])
         if "C05" in (want or {"C05"}) and "divide by zero" in msg:
             add("C05", "print_panic", "printing statistics panicked: %s" % msg[:200])
         return V, obs, None
